@@ -231,6 +231,19 @@ public:
         if (n) memcpy(p, src, n * sizeof(T));
         return reinterpret_cast<T *>(p);
     }
+    // as place(), but the data starts at an address congruent to `a` modulo 16: up to 15 readable filler bytes follow it
+    // (an over-read is seen one to sixteen bytes late); for code whose path depends on the alignment of its input
+    template <class T>
+    T *place_aligned(const T *src, size_t n, unsigned a)
+    {
+        reserve(n * sizeof(T) + sizeof(T) + 16);
+        uintptr_t end = (uintptr_t)(m_base + m_len), start = end - n * sizeof(T);
+        unsigned pad = (unsigned)((start - a) & 15);
+        char *p = (char *)(start - pad);
+        if (n) memcpy(p, src, n * sizeof(T));
+        memset(p + n * sizeof(T), 0xEE, pad);
+        return reinterpret_cast<T *>(p);
+    }
 
 private:
     char *m_base;
